@@ -654,6 +654,17 @@ where
                     let hash_fn: &HashFn<'static> = unsafe { std::mem::transmute(hash_fn) };
                     thread_pool.spawn_fifo(move || {
                         let _open_files_guard = RLIMIT_OPEN_FILES.clone().access_owned();
+                        // The paths in this group were the same file when they were scanned.
+                        // A path that has been pointed to another file since then (replaced
+                        // by renaming a new file over it) must not get the hash of that file,
+                        // nor lend its own hash to the others.
+                        if fg.len() > 1 {
+                            fg.retain(|f| match FileId::new(&f.file_info.path) {
+                                Ok(id) => id == f.file_info.id,
+                                // a path that cannot be examined is dealt with when it is read
+                                Err(_) => true,
+                            });
+                        }
                         // All the files in this group are the same file, so only one of them
                         // is hashed. If it cannot be read, e.g. because that path has just been
                         // removed, it is left out and the next path is tried, so that the other
